@@ -94,7 +94,6 @@ func installStdlib(m *Machine) {
 	pure2("strings.TrimLeft", func(a, b string) Value { return Lit(strings.TrimLeft(a, b)) })
 	pure2("strings.TrimRight", func(a, b string) Value { return Lit(strings.TrimRight(a, b)) })
 	pure2("strings.Trim", func(a, b string) Value { return Lit(strings.Trim(a, b)) })
-	pure2("strings.TrimPrefix", func(a, b string) Value { return Lit(strings.TrimPrefix(a, b)) })
 	pure2("strings.TrimSuffix", func(a, b string) Value { return Lit(strings.TrimSuffix(a, b)) })
 	pure2("strings.Split", func(a, b string) Value { return strList(strings.Split(a, b)) })
 	pure2("strings.Contains", func(a, b string) Value { return strings.Contains(a, b) })
@@ -116,6 +115,72 @@ func installStdlib(m *Machine) {
 			}
 		}
 		return unknownCall("strings.HasPrefix", args), nil
+	}
+	// TrimPrefix/CutPrefix of a symbolic string that starts with enough literal text to decide
+	trimPrefix := func(args []Value) (*Sym, bool, bool) { // result, found, decided
+		if len(args) != 2 {
+			return nil, false, false
+		}
+		s, ok1 := args[0].(*Sym)
+		p, ok2 := args[1].(*Sym)
+		if !ok1 || !ok2 {
+			return nil, false, false
+		}
+		pc, ok := p.Concrete()
+		if !ok {
+			return nil, false, false
+		}
+		if pc == "" {
+			return s, true, true
+		}
+		if len(s.Parts) == 0 {
+			return s, false, true
+		}
+		if s.Parts[0].Tok != "" || len(s.Parts[0].Lit) < len(pc) {
+			// the string starts with a token, or with less literal text than the prefix: a literal start
+			// that already disagrees decides it, otherwise unknown
+			if s.Parts[0].Tok == "" && !strings.HasPrefix(pc, s.Parts[0].Lit) {
+				return s, false, true
+			}
+			return nil, false, false
+		}
+		if !strings.HasPrefix(s.Parts[0].Lit, pc) {
+			return s, false, true
+		}
+		rest, ok := s.SliceFrom(len(pc))
+		if !ok {
+			return nil, false, false
+		}
+		return rest, true, true
+	}
+	m.Ext["strings.TrimPrefix"] = func(m *Machine, pos token.Pos, recv Value, args []Value) (Value, error) {
+		if c, ok := concreteArgs(args); ok && len(c) == 2 {
+			return Lit(strings.TrimPrefix(c[0], c[1])), nil
+		}
+		if r, _, decided := trimPrefix(args); decided {
+			return r, nil
+		}
+		return unknownCall("strings.TrimPrefix", args), nil
+	}
+	m.Ext["strings.CutPrefix"] = func(m *Machine, pos token.Pos, recv Value, args []Value) (Value, error) {
+		if c, ok := concreteArgs(args); ok && len(c) == 2 {
+			r, found := strings.CutPrefix(c[0], c[1])
+			return Tuple{Lit(r), found}, nil
+		}
+		if r, found, decided := trimPrefix(args); decided {
+			return Tuple{r, found}, nil
+		}
+		return Tuple{unknownCall("strings.CutPrefix", args), &Unknown{Why: "strings.CutPrefix found"}}, nil
+	}
+	// the text of an error value
+	m.Ext["(error).Error"] = func(m *Machine, pos token.Pos, recv Value, args []Value) (Value, error) {
+		switch e := recv.(type) {
+		case *Unknown:
+			return Tok("«text of " + e.Why + "»"), nil
+		case *Opaque:
+			return Tok("«text of " + e.ID + "»"), nil
+		}
+		return unknownCall("error.Error", []Value{recv}), nil
 	}
 	// strings.Index and relatives on a symbolic string: tokens stand for identifiers and type texts and never
 	// contain the separator (the assumption SplitN makes too); the result is a position in that string
@@ -658,6 +723,93 @@ func installStdlib(m *Machine) {
 				}
 			}
 			return NilV{}, nil
+		}
+	}
+	// sorting with a three-way comparator over the elements: an insertion sort driven by the closure
+	sortByCmp := func(m *Machine, pos token.Pos, name string, elems []Value, cmp Value) error {
+		for i := 1; i < len(elems); i++ {
+			for j := i; j > 0; j-- {
+				v, err := m.Call(pos, cmp, []Value{elems[j], elems[j-1]})
+				if err != nil {
+					return err
+				}
+				c, ok := v.(int64)
+				if !ok {
+					return undecided(pos, "%s: the order of two elements is not determined by the abstract values", name)
+				}
+				if c >= 0 {
+					break
+				}
+				elems[j], elems[j-1] = elems[j-1], elems[j]
+			}
+		}
+		return nil
+	}
+	for _, name := range []string{"slices.SortFunc", "slices.SortStableFunc"} {
+		name := name
+		m.Ext[name] = func(m *Machine, pos token.Pos, recv Value, args []Value) (Value, error) {
+			if len(args) != 2 {
+				return nil, undecided(pos, "%s arity", name)
+			}
+			switch l := args[0].(type) {
+			case *List:
+				return NilV{}, sortByCmp(m, pos, name, l.Elems, args[1])
+			case NilV:
+				return NilV{}, nil
+			}
+			return nil, undecided(pos, "%s of %s", name, Show(args[0]))
+		}
+	}
+	for _, name := range []string{"slices.SortedFunc", "slices.SortedStableFunc"} {
+		name := name
+		m.Ext[name] = func(m *Machine, pos token.Pos, recv Value, args []Value) (Value, error) {
+			if len(args) == 2 {
+				if sq, ok := args[0].(*Seq); ok && !sq.Two {
+					out := append([]Value{}, sq.Elems...)
+					if err := sortByCmp(m, pos, name, out, args[1]); err != nil {
+						return nil, err
+					}
+					return &List{Elems: out}, nil
+				}
+			}
+			return nil, undecided(pos, "%s of %s", name, Show(args[0]))
+		}
+	}
+	m.Ext["slices.AppendSeq"] = func(m *Machine, pos token.Pos, recv Value, args []Value) (Value, error) {
+		if len(args) == 2 {
+			base, ok := listOf(args[0])
+			if sq, isSeq := args[1].(*Seq); ok && isSeq && !sq.Two {
+				return &List{Elems: append(append([]Value{}, base...), sq.Elems...)}, nil
+			}
+		}
+		return nil, undecided(pos, "slices.AppendSeq of %s", Show(args[0]))
+	}
+	for _, name := range []string{"strings.Compare", "cmp.Compare"} {
+		name := name
+		m.Ext[name] = func(m *Machine, pos token.Pos, recv Value, args []Value) (Value, error) {
+			if len(args) == 2 {
+				if a, ok := args[0].(*Sym); ok {
+					if b, ok := args[1].(*Sym); ok {
+						ca, ok1 := a.Concrete()
+						cb, ok2 := b.Concrete()
+						if ok1 && ok2 {
+							return int64(strings.Compare(ca, cb)), nil
+						}
+					}
+				}
+				if a, ok := args[0].(int64); ok {
+					if b, ok := args[1].(int64); ok {
+						switch {
+						case a < b:
+							return int64(-1), nil
+						case a > b:
+							return int64(1), nil
+						}
+						return int64(0), nil
+					}
+				}
+			}
+			return unknownCall(name, args), nil
 		}
 	}
 	m.Ext["strings.NewReplacer"] = func(m *Machine, pos token.Pos, recv Value, args []Value) (Value, error) {
